@@ -59,6 +59,22 @@ Theorem C18_read_after_write_iana : forall buf v, bytes_ok buf -> length buf = 4
   get_field iana_vendor_id (set_field iana_vendor_id buf v) = v mod 2 ^ 32.
 Proof. exact iana_get_set. Qed.
 
+(* (4') the views are generic in their storage: over ANY buffer at least as long as the struct (a Vec, a slice of a
+   whole packet) a getter returns the documented bits of the struct-sized prefix and never looks further, and a
+   setter rewrites that prefix exactly as on a struct-sized buffer and leaves every later byte as it was *)
+Theorem C18_getter_any_buffer : forall fld f raw,
+  field_of fld = Some f -> (struct_len fld <= length raw)%nat -> bytes_ok raw ->
+  get_field f raw = spec_get fld (firstn (struct_len fld) raw).
+Proof. exact get_field_any. Qed.
+Theorem C18_setter_any_buffer : forall fld f raw v,
+  field_of fld = Some f -> (struct_len fld <= length raw)%nat -> bytes_ok raw ->
+  set_field f raw v = spec_set fld (firstn (struct_len fld) raw) v ++ skipn (struct_len fld) raw.
+Proof. exact set_field_any. Qed.
+(* ... and the last byte a field touches lies inside its struct, so a view over a shorter buffer fails (index out of
+   range, modelled as XPanic in Ops.hdr_op 12 / 13) exactly for the fields whose byte is missing *)
+Theorem C18_field_inside_struct : forall fld f, field_of fld = Some f -> (f_hi f / 8 < struct_len fld)%nat.
+Proof. exact hi_inside. Qed.
+
 (* (5) frame: writing one field leaves every field with a disjoint bit range unchanged; two different fields
    of one struct always have disjoint ranges, so writing a field leaves every OTHER field of its struct
    unchanged (the PCI and IANA structs have a single field each) *)
@@ -95,10 +111,17 @@ Example C18_nonvacuous :
   hdr_op 2 0 [0x01; 0; 0; 0] 1 = XVal 1 /\ hdr_op 2 0 [0x11; 0; 0; 0] 1 = XVal 0 /\
   hdr_op 3 0 [0x7E] 0 = XVal 1 /\ hdr_op 3 0 [0x80] 0 = XVal 0 /\
   c18_step (OHdr 1 6 [0x01; 0x0A; 0x0B; 0xC8] 3) (hdr_op 1 6 [0x01; 0x0A; 0x0B; 0xC8] 3) = sv_of true 106 /\
-  c18_step (OHdr 0 28 [1; 2; 3; 4] 0) (XVal 0) = sv_of false 28.
+  c18_step (OHdr 0 28 [1; 2; 3; 4] 0) (XVal 0) = sv_of false 28 /\
+  hdr_op 12 8 [0x01; 0x0A; 0x0B; 0xED; 0x55; 0xAA] 0 = XVal 5 /\
+  hdr_op 13 27 [0x80; 0x86; 0x55; 0xAA] 0x1234 = XBytes [0x12; 0x34; 0x55; 0xAA] /\
+  hdr_op 12 2 [0x01] 0 = XPanic [] /\ hdr_op 12 1 [0x01] 0 = XVal 1 /\
+  c18_step (OHdr 13 27 [0x80; 0x86; 0x55; 0xAA] 0x1234) (XBytes [0x12; 0x34; 0x55; 0xAB]) = sv_of false 427.
 Proof. repeat split; vm_compute; reflexivity. Qed.
 
 Print Assumptions C18_getter_layout.
+Print Assumptions C18_getter_any_buffer.
+Print Assumptions C18_setter_any_buffer.
+Print Assumptions C18_field_inside_struct.
 Print Assumptions C18_setter_layout.
 Print Assumptions C18_layout_table.
 Print Assumptions C18_transport_validator.
